@@ -170,6 +170,9 @@ func (s *Sim) Apply(op Op) bool {
 			return false
 		}
 		n := src.ln
+		if dst.ln+n > 1<<16 {
+			return false // repeated self-appends double the length; keep histories small
+		}
 		inPlace := dst.ln+n <= dst.cp
 		if inPlace && src != dst && src.sid == dst.sid && n > 0 {
 			// the source's readable window must not overlap the region written
